@@ -24,30 +24,40 @@ def tyleLen (ti : Nat) : Nat :=
   match Nat.land ti Gen.tiMaskTyle with
   | 1 => 1 | 2 => 2 | 3 => 4 | 4 => 8 | 5 => 16 | _ => 0
 
+/-- a type info the decoder does not support: a modifier that changes the layout of the argument (variable info, fixed
+    point, array, trace info, structure), or a fixed-size type with a reserved length code (6..15) -/
+def unsupportedTi (ti : Nat) : Bool :=
+  has ti Gen.tiVari || has ti Gen.tiFixp || has ti (Gen.tiAray + Gen.tiTrai + Gen.tiStru) ||
+  ((has ti Gen.tiBool || has ti (Gen.tiSint + Gen.tiUint) || has ti Gen.tiFloa) && Nat.land ti Gen.tiMaskTyle ≥ 6)
+
+/-- what the decoder does with a given type-info word, independent of the byte order -/
+def nextTi (ti : Nat) (rest : Bytes) (be : Bool) : Option (DArg × Bytes) :=
+  let len := tyleLen ti
+  if has ti Gen.tiVari then none
+  else if has ti Gen.tiFixp then none
+  else if has ti (Gen.tiAray + Gen.tiTrai + Gen.tiStru) then none
+  else if has ti Gen.tiBool then
+    -- length code 1, or 0 (what dlt-viewer persists); not the reserved codes
+    (if len != 1 && Nat.land ti Gen.tiMaskTyle != 0 then none else
+      match rest with
+      | x :: rest' => some ({ ti := ti, raw := [x] }, rest')
+      | [] => none)
+  else if has ti (Gen.tiSint + Gen.tiUint) then
+    (if len < 1 then none else if rest.length ≥ len then some ({ ti := ti, raw := rest.take len }, rest.drop len) else none)
+  else if has ti Gen.tiFloa then
+    (if len < 2 then none else if rest.length ≥ len then some ({ ti := ti, raw := rest.take len }, rest.drop len) else none)
+  else if has ti (Gen.tiStrg + Gen.tiRawd) then
+    (match rest with
+      | l1 :: l2 :: rest' =>
+        let n := rd16 be l1 l2
+        if rest'.length ≥ n then some ({ ti := ti, raw := rest'.take n }, rest'.drop n) else none
+      | _ => none)
+  else none
+
 /-- one call of `next()` at the start of `p` (verbose): `none` = iteration stops; otherwise the argument and the rest -/
 def next (be : Bool) (p : Bytes) : Option (DArg × Bytes) :=
   match p with
-  | a :: b :: c :: d :: rest =>
-    let ti := rd32 be a b c d
-    let len := tyleLen ti
-    if has ti Gen.tiVari then none
-    else if has ti Gen.tiFixp then none
-    else if has ti Gen.tiBool then
-      (if len != 1 && len != 0 then none else
-        match rest with
-        | x :: rest' => some ({ ti := ti, raw := [x] }, rest')
-        | [] => none)
-    else if has ti (Gen.tiSint + Gen.tiUint) then
-      (if len < 1 then none else if rest.length ≥ len then some ({ ti := ti, raw := rest.take len }, rest.drop len) else none)
-    else if has ti Gen.tiFloa then
-      (if len < 2 then none else if rest.length ≥ len then some ({ ti := ti, raw := rest.take len }, rest.drop len) else none)
-    else if has ti (Gen.tiStrg + Gen.tiRawd) then
-      (match rest with
-        | l1 :: l2 :: rest' =>
-          let n := rd16 be l1 l2
-          if rest'.length ≥ n then some ({ ti := ti, raw := rest'.take n }, rest'.drop n) else none
-        | _ => none)
-    else none
+  | a :: b :: c :: d :: rest => nextTi (rd32 be a b c d) rest be
   | _ => none
 
 /-- `for arg in &msg` for a verbose message (fuel = payload length) -/
